@@ -209,6 +209,8 @@ structure Net where
   inflight : List Msg
   /-- endpoints that processed the event, in order (ghost history) -/
   processed : List Ep
+  /-- the messages whose recipient processed the event, in order (ghost history) -/
+  accepted : List Msg
   /-- endpoints that wrote the event to their replay log -/
   persisted : List Ep
   /-- messages whose recipient discarded them -/
@@ -217,7 +219,7 @@ structure Net where
 
 /-- the originating endpoint processes the event locally and relays it without origin -/
 def start (T : Topo) (orig : Ep) (oz : Zone) : Net :=
-  { inflight := emit T orig Origin.loc oz, processed := [orig],
+  { inflight := emit T orig Origin.loc oz, processed := [orig], accepted := [],
     persisted := if (relay T orig Origin.loc (some oz) true).persist then [orig] else [],
     discarded := [] }
 
@@ -231,6 +233,7 @@ def deliver (T : Topo) (oz : Zone) (n : Net) (i : Nat) : Net :=
     let o := originOf T msg
     if accept T oz o then
       { inflight := rest ++ emit T msg.to o oz, processed := n.processed ++ [msg.to],
+        accepted := n.accepted ++ [msg],
         persisted := if (relay T msg.to o (some oz) true).persist then n.persisted ++ [msg.to] else n.persisted,
         discarded := n.discarded }
     else { n with inflight := rest, discarded := n.discarded ++ [msg] }
